@@ -388,6 +388,13 @@ func init() {
 		}
 		return Tuple{tFalse, e.numError("ParseBool", x)}
 	})
+	reg("strconv.FormatFloat", func(e *Engine, fn *ssa.Function, a []Value, s ssa.Instruction) Value {
+		f, fm, prec, bs := T(a[0]), T(a[1]), T(a[2]), T(a[3])
+		if !f.Const || !fm.Const || !prec.Const || !bs.Const {
+			e.abort("unsupported", "strconv.FormatFloat on symbolic arguments")
+		}
+		return mkStr(strconv.FormatFloat(fpVal(f), byte(fm.UVal), int(signExt(prec.UVal, 64)), int(bs.UVal)))
+	})
 	reg("strconv.ParseFloat", func(e *Engine, fn *ssa.Function, a []Value, s ssa.Instruction) Value {
 		x := T(a[0])
 		bits := T(a[1])
